@@ -500,11 +500,25 @@ def owner_root(mir, syn, path, depth=4):
             b = mir.fns.get(p)
             n += 1
         return p
+    def chain_root(p, steps=depth):
+        """follow single-caller private helpers upwards (no branching)"""
+        c_ = unclosure(p)
+        for _ in range(steps):
+            if c_ not in private:
+                break
+            up = {unclosure(x) for x in callers.get(c_, ())} - {c_}
+            if len(up) != 1:
+                break
+            c_ = next(iter(up))
+        return c_
     cur = unclosure(path)
     for _ in range(depth):
         if cur not in private:
             break
         cs = {unclosure(c) for c in callers.get(cur, ())} - {cur}
+        if len(cs) > 1:
+            # several callers that all belong to one function (two private helpers of the same caller share a third)
+            cs = {chain_root(c) for c in cs} - {cur}
         if len(cs) != 1:
             break
         cur = next(iter(cs))
